@@ -15,6 +15,7 @@ import SkModel.Seeker
 import SkModel.Since
 import SkModel.Collection
 import SkModel.ParStore
+import SkModel.Runner
 import SkModel.Spec.Lines
 
 open Lean Sk
@@ -458,10 +459,76 @@ def runParCase (j : Json) : Json :=
     ("ptr", toJson sF.ptr), ("lockFree", toJson sF.lock.isNone),
     ("workers", Json.arr workers.toArray), ("shared", Json.arr shared.toArray)]
 
+/-! ### Runner (C17, C18, C08) -/
+
+def planJson : Plan → Json
+  | .nothing => Json.arr #["nothing"]
+  | .inProcess => Json.arr #["inProcess"]
+  | .pool n => Json.arr #["pool", toJson n]
+
+/-- exhaustive table of num_parallel_tasks / plan -/
+def runPlanCase (j : Json) : Json :=
+  let ms := (arrF j "ms").toList.map asNat
+  let cpus := (arrF j "cpus").toList.map asNat
+  let files := (arrF j "files").toList.map asNat
+  Json.arr (ms.flatMap fun m => cpus.flatMap fun c => files.map fun f =>
+    Json.arr #[toJson m, toJson c, toJson f, toJson (numParallel m c f), planJson (plan m c f)]).toArray
+
+/-- a whole run: jobs = list of {task, nregs, empty}; persist = [[defid, cnt]...] -/
+def runRunCase (j : Json) : Json :=
+  let K := natF j "K"
+  let pers := (arrF j "persist").toList.map fun e => let a := asArr e
+    (asNat (a.getD 0 .null), asNat (a.getD 1 .null))
+  let p : Nat → SeqPersist := fun id => match pers.lookup id with
+    | some c => { cnt := c, sec := c }
+    | none => {}
+  let jobs := (arrF j "jobs").toList.map fun jb =>
+    ({ task := toTaskIn (fld jb "task"), nregs := natF jb "nregs", empty := boolF jb "empty" } : FileJob)
+  -- persist-independence (C08): running from the object state gives the same results
+  -- up to the renaming of section ids
+  let persistOk := jobs.all fun jb =>
+    match runTaskFrom p jb.task, runTask jb.task with
+    | .ok (a, sa), .ok (b, sb) => a == b.map (shiftSec p) && sa == sb
+    | .error e1, .error e2 => e1 == e2
+    | _, _ => false
+  match runAll jobs with
+  | .ok (paths, st) =>
+    Json.mkObj [("paths", Json.arr (paths.map fun rs => Json.arr (rs.map (resJson K)).toArray).toArray),
+      ("stats", Json.mkObj [("searches", toJson st.searches), ("searches_by_job", toJson st.searchesByJob),
+         ("lines", toJson st.lines), ("results", toJson st.results),
+         ("jobs_completed", toJson st.jobsCompleted), ("total_jobs", toJson st.totalJobs)]),
+      ("persistOk", toJson persistOk)]
+  | .error _ =>
+    Json.mkObj [("errs", Json.arr ((runErrors jobs).map errJson).toArray), ("persistOk", toJson persistOk)]
+
+/-- validate a pool trace: events [["take", w, task] | ["finish", w, task]] -/
+def runPoolCase (j : Json) : Json :=
+  let n := natF j "n"
+  let tasks := (arrF j "tasks").toList.map asNat
+  let s0 : PoolSt := { pending := tasks, busy := [], finished := [] }
+  let evs := (arrF j "events").toList
+  let rec go (s : PoolSt) (evs : List Json) (i : Nat) : PoolSt × Option Nat :=
+    match evs with
+    | [] => (s, none)
+    | e :: rest =>
+      let a := asArr e
+      let w := asNat (a.getD 1 .null)
+      let l := if asStr (a.getD 0 .null) == "take" then PoolLbl.take w else PoolLbl.finish w
+      match poolStep n s l with
+      | some s' => go s' rest (i + 1)
+      | none => (s, some i)
+  let (sF, bad) := go s0 evs 0
+  Json.mkObj [("valid", toJson bad.isNone), ("at", optNat bad),
+    ("finished", Json.arr (sF.finished.map fun e => Json.arr #[toJson e.1, toJson e.2]).toArray),
+    ("pending", toJson sF.pending)]
+
 def handle (j : Json) : Json :=
   match strF j "kind" with
   | "task" => Json.mkObj [("model", runTaskCase j), ("specSimple", specSimpleCase j),
                           ("specSeq", specSeqCase j), ("specGate", specGateCase j)]
+  | "plan" => Json.mkObj [("model", runPlanCase j)]
+  | "run" => Json.mkObj [("model", runRunCase j)]
+  | "pool" => Json.mkObj [("model", runPoolCase j)]
   | "parstore" => Json.mkObj [("model", runParCase j)]
   | "coll" => Json.mkObj [("model", runCollCase j)]
   | "since" => Json.mkObj [("model", runSinceCase j)]
